@@ -99,6 +99,31 @@ def do(op: dict) -> dict:
                         vals.append(err_enum(ex))
                 out.append({"listing": list(d["properties"]), "row": row, "names": names, "values": vals})
         return {"reads": out}
+    if kind == "bigread":
+        # one record read as the last of a long file (more than the reader's 32768-byte buffer) and read alone: what it yields does
+        # not depend on how many bytes of other records were processed before it
+        import stingray.workbook as WB
+        docs = list(CP.schema_iter(io.StringIO(op["text"])))
+        schema = SI.SchemaMaker.from_json(docs[0])
+        out = {}
+        for label, data in (("after", bytes.fromhex(op["before"]) + bytes.fromhex(op["probe"])), ("alone", bytes.fromhex(op["probe"]))):
+            try:
+                wb = WB.COBOL_EBCDIC_File("big.data", file_object=io.BytesIO(data), lrecl=1)
+                sheet = wb.sheet("").set_schema(schema)
+                last = None
+                n = 0
+                for row in sheet.rows():
+                    last = {f: repr(row.name(f).value()) for f in op["fields"]}
+                    last["end"] = row.nav.location.end
+                    n += 1
+                    if n > op.get("max_rows", 10 ** 9):
+                        last = "does-not-end"
+                        break
+                out[label] = last
+                out[label + "_rows"] = n
+            except BaseException as ex:  # noqa: BLE001
+                out[label] = err_enum(ex)
+        return out
     if kind == "handread":
         # a hand-written schema for non-delimited data (an array sized by minItems alone, a leaf with an arbitrary conversion name)
         # read with the text reader or the EBCDIC reader
